@@ -610,8 +610,9 @@ def _run_history(case):
                     if outcome == "ok":
                         # known defect: row switch onto an expired, deleted-marked object whose row vanished
                         vanished_switch = [k for k in gone_k if plan[k][0] == "switch" and k not in seen_before]
-                        if vanished_switch and kind == "c":
-                            lostk = [k for k in vanished_switch if k not in after]
+                        if vanished_switch:
+                            # (flush + rollback: the table is back to `before`, nothing can be "lost")
+                            lostk = [k for k in vanished_switch if k not in after] if kind == "c" else []
                             if lostk:
                                 problems.append((KEY_INSDEL,
                                                  "session %d: delete(expired obj) + add(new obj, same pk %s) committed without error but the new row is not in the table: before=%s after=%s"
